@@ -1,4 +1,52 @@
-import PoetryVerif.Model.MarkerOps
+/-
+C13 — Marker normal forms and marker text preserve meaning.
+Property theorems only (helper lemmas: Proofs/MarkerSem.lean, Proofs/MarkerAlgSound*.lean,
+Proofs/MarkerShape.lean, Proofs/MarkerPrint.lean).
+-/
+import PoetryVerif.Proofs.MarkerAlgSoundOps
+
+set_option linter.unusedSimpArgs false
+set_option linter.unusedVariables false
+
 namespace Poetry.C13
-theorem placeholder_to_be_replaced : True := trivial
+open Poetry Poetry.Marker
+
+variable {E : Env} {G : Leaf → Prop} {fuel : Nat} {stk : Stack}
+
+/-- **`cnf` preserves meaning** — every fuel, every recursion stack, every marker over good leaves
+(relative to the leaf facts `LeafSpec`, see Props/C07.lean): the conjunctive normal form is true in
+exactly the environments the marker is, and `validate` reports that value. -/
+theorem cnf_sound_partial (S : LeafSpec (leafEval E) G) (hE : ∀ l, G l → ∃ b, l.validate E = .ok b)
+    {m r : M} (hg : M.Good G m) (h : cnf fuel stk m = .ok r) :
+    M.Good G r ∧ M.sem (leafEval E) r = M.sem (leafEval E) m ∧
+      M.validate E r = .ok (M.sem (leafEval E) m) := by
+  have := cnf_sound S hg h
+  refine ⟨this.1, this.2, ?_⟩
+  rw [M.validate_eq_sem E r (M.good_mono hE r this.1)]
+  exact congrArg _ this.2
+
+/-- `(sys_platform == "a" and os_name != "b") or sys_platform != "a"` has the conjunctive normal form
+`os_name != "b" or sys_platform != "a"` -/
+example : ∃ r, LeafSpec (leafEval Ex.envAB) Ex.G0 ∧
+    cnf 60 [] (.union [.multi [.leaf (.single Ex.sA), .leaf (.single Ex.sB)], .leaf (.single Ex.sNA)]) = .ok r ∧
+    r = .union [.leaf (.single Ex.sB), .leaf (.single Ex.sNA)] := by
+  refine ⟨_, Ex.leafSpec0, ?_, rfl⟩
+  marker_eval [Ex.sA, Ex.sNA, Ex.sB, Ex.i1, Ex.i2, Ex.i3, Ex.i4, Ex.i5, Ex.u1, Ex.u2, Ex.u3, Ex.u4, Ex.u5]
+
+/-- **`dnf` preserves meaning.** -/
+theorem dnf_sound_partial (S : LeafSpec (leafEval E) G) (hE : ∀ l, G l → ∃ b, l.validate E = .ok b)
+    {m r : M} (hg : M.Good G m) (h : dnf fuel stk m = .ok r) :
+    M.Good G r ∧ M.sem (leafEval E) r = M.sem (leafEval E) m ∧
+      M.validate E r = .ok (M.sem (leafEval E) m) := by
+  have := dnf_sound S hg h
+  refine ⟨this.1, this.2, ?_⟩
+  rw [M.validate_eq_sem E r (M.good_mono hE r this.1)]
+  exact congrArg _ this.2
+
+example : ∃ r, LeafSpec (leafEval Ex.envAB) Ex.G0 ∧
+    dnf 60 [] (.multi [.union [.leaf (.single Ex.sA), .leaf (.single Ex.sB)], .leaf (.single Ex.sNA)]) = .ok r ∧
+    r = .multi [.leaf (.single Ex.sB), .leaf (.single Ex.sNA)] := by
+  refine ⟨_, Ex.leafSpec0, ?_, rfl⟩
+  marker_eval [Ex.sA, Ex.sNA, Ex.sB, Ex.i1, Ex.i2, Ex.i3, Ex.i4, Ex.i5, Ex.u1, Ex.u2, Ex.u3, Ex.u4, Ex.u5]
+
 end Poetry.C13
